@@ -15,6 +15,11 @@ TRUSTED = [
     "the specification is a Gallina interpreter in the style of bash's execute_cmd.c; it is validated against /usr/bin/bash 5.2.15 "
     "by differential runs (spec_vs_bash), not proved against bash's source",
     "multi-stage pipelines are modelled, specified and tested, but excluded from the simulation theorem (scope class P)",
+    "not modelled: the Err that leaves Pipeline::execute when a function called from a pipeline stage lets a break/continue escape "
+    "(programs of the open class stray-break with Scope.v stage_call_hazard): there brush is compared with spec/bash only "
+    "(distribution.known/model_not_applicable_stage_call)",
+    "brush's parser is outside the model: the renderer terminates every subshell body that mentions `esac` with `;` (finding "
+    "KF-C02-esac-rparen, class = Scope.v parser_hazard + brush rejecting the script)",
 ]
 ASSUMPTIONS = ["bash 5.2 (compat level > 44: loop_level reset in subshells) is the reference",
                "stdout of the shell is a regular file (no SIGPIPE); non-final pipeline stages are silent"]
